@@ -1,3 +1,4 @@
 -- root of the library: everything the checks build
 import CtyModel.Props.C07
 import CtyModel.Props.C03
+import CtyModel.Props.C19
